@@ -172,6 +172,52 @@ def judge_internal(rec, m, entries, case, large_clean):
                 st[1] = dict(case, method=m, nfev=e["nfev"])
 
 
+BIFURCATIONS = {}
+
+
+def bifurcation(m, i0, i1, N):
+    """Known finding D26: the internal Nelder-Mead fit of a fit-based
+    estimator takes another path for the transformed array (several times
+    more or fewer evaluations, both converge) and ends a few samples away.
+    Counted per estimator; reported under its own key by run_shard (listed in
+    known_findings.json) - more than two per shard is a plain violation."""
+    if MTAP is None or not m.startswith("fit_") or abs(i1 - i0) > .05 * N:
+        return False
+    ev = [e for e in MTAP.poc_log[-2:]]
+    if len(ev) < 2 or not all(e["success"] and not e["aborted"] for e in ev):
+        return False
+    if max(e["nfev"] for e in ev) < 2 * min(e["nfev"] for e in ev):
+        return False
+    BIFURCATIONS.setdefault(m, []).append((i0, i1, N))
+    return True
+
+
+def known_witness(rec, tap):
+    """frozen input of D26 (vm/data): force array and constant shift for
+    which fit_constant_polynomial moves by 9 of 300 samples"""
+    import pathlib
+    from nanite import poc
+    here = pathlib.Path(__file__).resolve().parent.parent / "data"
+    force = np.load(here / "c08_known_shift_bifurcation.npy")
+    rec.event("frozen witness of the known shift bifurcation applied")
+    n0 = len(MTAP.poc_log)
+    i0 = poc.compute_poc(force.copy(), "fit_constant_polynomial")
+    e0 = MTAP.poc_log[n0:]
+    i1 = poc.compute_poc(force - 1.1851677696653206e-07,
+                         "fit_constant_polynomial")
+    if abs(i1 - i0) > 1:
+        rec.violation("invariance/fit-based-estimator/optimiser-path-"
+                      "bifurcation",
+                      "fit_constant_polynomial: index %d -> %d under a "
+                      "constant shift (internal optimisation: %s vs %s "
+                      "evaluations)" % (i0, i1, e0[-1]["nfev"] if e0 else "?",
+                                        MTAP.poc_log[-1]["nfev"]),
+                      {"id": [0, -1], "curve": "frozen witness vm/data/"
+                       "c08_known_shift_bifurcation.npy"})
+    else:
+        rec.event("frozen witness of the known shift bifurcation passes")
+
+
 def curve_case(rec, tap, rng, cid, large_clean=False):
     mk = MODELS[int(rng.integers(4))]
     N = int(rng.choice([300, 800, 2000]))
@@ -247,6 +293,8 @@ def curve_case(rec, tap, rng, cid, large_clean=False):
             if i1 is None:
                 continue
             rec.maximum("index change under %s" % kind, abs(i1 - i0))
+            if abs(i1 - i0) > lim and bifurcation(m, i0, i1, N):
+                continue
             rec.check(abs(i1 - i0) <= lim, "invariance/%s/%s" % (kind, m),
                       "index %d -> %d under %s (2^%d / x%r / +%r)"
                       % (i0, i1, kind, e2, sc, sh),
@@ -303,6 +351,22 @@ def run_shard(rec, tier, seed, shard, nshards):
                 rec.violation("accuracy/" + m, "%d of %d clean-curve "
                               "estimates outside the stated fraction, e.g. %s"
                               % (bad, tot, first[0]), first[1])
+        for m, lst in BIFURCATIONS.items():
+            rec.event("optimiser path bifurcations (known finding D26)",
+                      len(lst))
+            rec.violation("invariance/fit-based-estimator/optimiser-path-"
+                          "bifurcation",
+                          "%s: index %d -> %d (N=%d) under a scale / shift; "
+                          "the internal Nelder-Mead fit took another path"
+                          % ((m,) + lst[0]), {"id": [shard, -2],
+                                              "method": m})
+            rec.check(len(lst) <= 2,
+                      "invariance/fit-based-estimator/bifurcations-frequent",
+                      "%d path bifurcations of %s in one shard" % (len(lst),
+                                                                   m),
+                      {"id": [shard, -2], "method": m})
+        if shard == 0:
+            known_witness(rec, tap)
         for m, (n, first) in ABORTS.items():
             # (never seen on the unchanged tree; two per shard rule out a
             #  freak case)
